@@ -40,8 +40,14 @@ RULES = {
     "running statistics instead of the batch statistics",
     "R9": "equivalence keys compare floats exactly: a FLOAT/FLOATS attribute enters the common-subexpression key through its "
     "bit pattern (struct.pack, float.hex, tobytes), never as a Python float - 0.0 == -0.0 and hash alike, but x/0.0 and x/-0.0 differ",
+    "R10": "a registry of used value names knows every value of the graph it is collected for: a pass function that registers "
+    "the names of a graph's node outputs in a set (to keep the names it makes up, or the names of inlined values, apart from "
+    "them) registers in the same function - its nested callbacks included - the names of that graph's inputs and of its "
+    "initializers too; collected one nesting level up (main graph and functions only), the interface names of control-flow "
+    "subgraphs are unknown and an inlined or renamed value can take the name of a subgraph's input or initializer: two "
+    "values under one name in one scope, a model the checker rejects or that binds consumers to the wrong value",
 }
-FLOORS = {"R1": 5, "R2": 6, "R3": 8, "R4": 6, "R5": 8, "R6": 2, "R7": 1, "R8": 10, "R9": 1}
+FLOORS = {"R1": 5, "R2": 6, "R3": 8, "R4": 6, "R5": 8, "R6": 2, "R7": 1, "R8": 10, "R9": 1, "R10": 3}
 EXPLANATION = (
     "Four structural necessary conditions of semantic preservation that the pass mechanisms rely on: guarded removal, "
     "interface-size preservation (call-site scan with receiver typing), data-dependence of the equivalence keys on all "
@@ -635,7 +641,103 @@ def rule_r9(ctx):
                   construct=f"CSE key compares {mem} by ==")
 
 
+def rule_r10(ctx):
+    n = 0
+    for f in _pass_funcs(ctx):
+        if isinstance(f.node, ast.Lambda) or f.parent is not None:
+            continue
+        scope = [f.node] + [g.node for g in _all_nested(f)]
+        # feeding expressions of every name set: arguments of S.add / S.update and what S is bound to
+        feeds: dict[str, list] = {}
+        for fn in scope:
+            for x in own_nodes(fn):
+                if isinstance(x, ast.Call) and isinstance(x.func, ast.Attribute) and x.func.attr in ("add", "update") and x.args:
+                    feeds.setdefault(norm(x.func.value), []).append((x.args[0], x))
+                elif isinstance(x, (ast.Assign, ast.AnnAssign)) and getattr(x, "value", None) is not None and (
+                        isinstance(x.value, (ast.Set, ast.SetComp, ast.Dict, ast.DictComp)) or (
+                            isinstance(x.value, ast.Call) and dotted_of(x.value.func) in ("set", "frozenset", "dict"))):
+                    for t in (x.targets if isinstance(x, ast.Assign) else [x.target]):
+                        if isinstance(t, (ast.Name, ast.Attribute)):
+                            feeds.setdefault(norm(t), []).append((x.value, x))
+        # collections consulted together by one uniqueness test (`while n in A or n in B or n in g.initializers`) form one
+        # registry: what one of them lacks another may hold
+        for fn in scope:
+            for x in own_nodes(fn):
+                if isinstance(x, (ast.While, ast.If)) and isinstance(x.test, ast.BoolOp) and isinstance(x.test.op, ast.Or):
+                    members = [c.comparators[0] for c in x.test.values if isinstance(c, ast.Compare) and len(c.ops) == 1 and isinstance(c.ops[0], ast.In)]
+                    names_ = [norm(m_) for m_ in members]
+                    if len(members) >= 2 and any(k in feeds for k in names_):
+                        merged = []
+                        for k, m_ in zip(names_, members):
+                            merged += feeds.pop(k, [])
+                            merged.append((m_, x))  # the collection itself, e.g. `model.graph.initializers`
+                        feeds[" | ".join(names_)] = merged
+        for sname, lst in sorted(feeds.items()):
+            def mentions(e, site, attr, name_needed=True):
+                # `<x>.name` of an element of `<…>.<attr>` - in a comprehension over it, or in a loop over it around the site
+                txt = norm(e)
+                if f".{attr}" in txt and (".name" in txt or not name_needed):
+                    return True
+                if name_needed and ".name" not in txt:
+                    return False
+                p = getattr(site, "_parent", None)
+                while p is not None:
+                    if isinstance(p, (ast.For, ast.AsyncFor)) and f".{attr}" in norm(p.iter):
+                        return True
+                    p = getattr(p, "_parent", None)
+                return False
+
+            out_sites = [site for e, site in lst if mentions(e, site, "outputs") and _over_nodes(e, site)]
+            if not out_sites:
+                continue
+            n += 1
+            has_in = any(mentions(e, site, "inputs") for e, site in lst)
+            has_init = any(mentions(e, site, "initializers", name_needed=False) for e, site in lst)
+            missing = [w for w, ok in (("inputs", has_in), ("initializers", has_init)) if not ok]
+            ctx.check("R10", f"{f.local}: `{sname}` collects node outputs, graph inputs and initializers together", not missing, f, out_sites[0],
+                      f"{f.local} registers the names of the node outputs of the graph it works on in `{sname}` but not the names of that graph's "
+                      f"{' and '.join(missing)}: where this function is applied to a nested subgraph (If/Loop body), a name it generates or keeps "
+                      "for an inlined/renamed value can equal the name of the subgraph's own input or initializer - two values under one "
+                      "name in the same scope",
+                      how="feeding expressions of the name set in the function and its nested callbacks mention .outputs, .inputs and .initializers",
+                      construct=f"{sname} lacks {'/'.join(missing)}")
+    ctx.require(n >= 3, f"only {n} used-name registries fed with node output names found in the passes")
+
+
+def _all_nested(f):
+    for g in f.nested.values():
+        yield g
+        yield from _all_nested(g)
+
+
+def _over_nodes(e, site) -> bool:
+    """The `.outputs` whose names are registered are those of nodes (a loop / comprehension variable), not the graph's outputs."""
+    for x in ast.walk(e):
+        if isinstance(x, ast.Attribute) and x.attr == "outputs" and isinstance(x.value, ast.Name):
+            nm = x.value.id
+            for c in ast.walk(e):
+                if isinstance(c, ast.comprehension) and any(isinstance(t, ast.Name) and t.id == nm for t in ast.walk(c.target)):
+                    return True
+            p = getattr(site, "_parent", None)
+            while p is not None:
+                if isinstance(p, (ast.For, ast.AsyncFor)) and any(isinstance(t, ast.Name) and t.id == nm for t in ast.walk(p.target)):
+                    return True
+                p = getattr(p, "_parent", None)
+    p = getattr(site, "_parent", None)
+    while p is not None:
+        if isinstance(p, (ast.For, ast.AsyncFor)) and ".outputs" in norm(p.iter) and isinstance(p.iter, ast.Attribute) and isinstance(p.iter.value, ast.Name):
+            nm = p.iter.value.id
+            q = getattr(p, "_parent", None)
+            while q is not None:
+                if isinstance(q, (ast.For, ast.AsyncFor)) and any(isinstance(t, ast.Name) and t.id == nm for t in ast.walk(q.target)):
+                    return True
+                q = getattr(q, "_parent", None)
+        p = getattr(p, "_parent", None)
+    return False
+
+
 def run(ctx):
+    rule_r10(ctx)
     rule_r8(ctx)
     rule_r9(ctx)
     rule_r7(ctx)
